@@ -53,10 +53,13 @@ func runC02(res *lp.Result) {
 	ask := func(l, want, d string) { lines = append(lines, l); expect = append(expect, want); descr = append(descr, d) }
 	for _, v := range gen.Versions {
 		for _, kind := range gen.Kinds {
-			for i := 0; i < per; i++ {
+			for i := 0; i < per+1; i++ {
 				g := &gen.G{R: rng, V: v, Big: rng.Intn(8) == 0}
 				f := g.Frame(kind)
 				if f == nil {
+					continue
+				}
+				if i == per && !g.Enlarge(f) { // one frame per kind whose lists have more than 1024 entries
 					continue
 				}
 				id := fmt.Sprintf("v=%d kind=%s seed=%d i=%d", v, kind, *seed, i)
